@@ -187,7 +187,11 @@ def run(ctx):
     if r.outcome != "ok":
         raise vlib.ModelFailure("G3Session: %s\n%s" % (r.outcome, r.out[-2000:]))
     nets = sorted(r.cases, key=lambda c: json.dumps(c, sort_keys=True))
-    nets = nets[:: max(1, len(nets) // (800 if q else 6000))]
+    # scenarios the specification always generates (gross vectors, partially constrained free networks) are all kept
+    prio = [n for n in nets if n.get("gross", 0) > 0 or (n["status"] == "pconstr" and n["noise"] == 0)]
+    rest = [n for n in nets if not (n.get("gross", 0) > 0 or (n["status"] == "pconstr" and n["noise"] == 0))]
+    prio = prio[:: max(1, len(prio) // (300 if q else 3000))]
+    nets = prio + rest[:: max(1, len(rest) // (600 if q else 5000))]
     ctx.note("G3Session.tla: %d states, %d networks" % (r.distinct, len(nets)))
     bdir = vlib.build("plain", ["gama-g3", "drv_adjxml"])
     vlib.build("asan", ["gama-g3"])
